@@ -22,6 +22,9 @@ structure St where
   f : Option (Filter Dg) := none
   peers : Array (PeerState Nat) := #[]
   rlf : Option (Filter Dg) := none
+  /-- connection-level read limit of a REAL websocket connection (conn.SetReadLimit(MaxMessageLength)): it bounds the whole
+      frame payload = tag ‖ message; 0 = scripted connection (SetReadLimit is a no-op there) -/
+  wsLimit : Nat := 0
 
 def bodyAux (seed : Nat) : Nat → List Nat → List Nat
   | 0, acc => acc
@@ -127,17 +130,21 @@ def step (st : St) (line : String) : St × String :=
   | ["rlnew", np, nb, m] =>
       let flt : Option (Filter Dg) := if nat! nb = 0 then none else Filter.make (nat! nb) (nat! m)
       let peers := (List.range (nat! np)).map (fun _ => ({ slurper := wsSlurper, alive := true } : PeerState Nat))
-      ({ st with peers := peers.toArray, rlf := flt }, "ok")
+      ({ st with peers := peers.toArray, rlf := flt, wsLimit := 0 }, "ok")
   | ["wsnew", np, nb, m, _wbuf] =>
       -- peers behind a real websocket connection: the model is the same (the outcome does not depend on the framing)
       let flt : Option (Filter Dg) := if nat! nb = 0 then none else Filter.make (nat! nb) (nat! m)
       let peers := (List.range (nat! np)).map (fun _ => ({ slurper := wsSlurper, alive := true } : PeerState Nat))
-      ({ st with peers := peers.toArray, rlf := flt }, "ok")
+      ({ st with peers := peers.toArray, rlf := flt, wsLimit := Gen.Tags.maxMessageLength }, "ok")
   | ["rlmsg", pi, tag, len, seed, script] =>
       match st.peers[nat! pi]? with
       | none => (st, "no-peer")
       | some p =>
         let stream := hexBytes tag ++ body (nat! len) (nat! seed)
+        -- the websocket layer refuses a message (tag included) longer than its read limit: the read fails, the loop exits
+        if st.wsLimit > 0 && stream.length > st.wsLimit then
+          ({ st with peers := st.peers.set! (nat! pi) { p with alive := false } }, "closed")
+        else
         let (out, p', flt') := readLoopMsg wsTable wsDispatch wsDedupSafe wsClosesEarly fingerprint []
           p st.rlf { stream := stream, script := parseScript script }
         let st' := { st with peers := st.peers.set! (nat! pi) p', rlf := flt' }
